@@ -65,6 +65,28 @@ def inputs_for(bpt, tier):
                         out.append((a, b))
                     b = ("scaffold_2", pv.scaffold_rows(style, "scaffold_2", (1, 1), (sep,), (1, 1)))
                     out.append((a, b))
+    # scaffolds that begin and / or end with a gap (leading / trailing Ns of a FASTA record)
+    for h in heads:
+        for lead, trail in ((3, 0), (0, 4), (3, 4), (2 * e + 1, e)):
+            for style in ("tpf", "fasta"):
+                rows = []
+                pos = 0
+                if lead:
+                    rows.append(("G", lead, "scaffold"))
+                    pos += lead
+                for i, ln in enumerate((h, e + 1)):
+                    if i:
+                        rows.append(("G", 7, "contig"))
+                        pos += 7
+                    if style == "tpf":
+                        rows.append(("F", f"scaffold_1.c{i + 1}", 1, ln, 1))
+                    else:
+                        rows.append(("F", "scaffold_1", pos + 1, pos + ln, 1))
+                    pos += ln
+                if trail:
+                    rows.append(("G", trail, "scaffold"))
+                out.append((("scaffold_1", tuple(rows)),))
+                out.append((("scaffold_1", tuple(rows)), ("scaffold_2", pv.scaffold_rows(style, "scaffold_2", (2 * e + 1,), (), (1,)))))
     # dedupe
     seen = set()
     res = []
